@@ -11,7 +11,9 @@ import ast, json
 
 KINDS = ['Name', 'Const', 'NegConst', 'Or', 'And', 'Not', 'Compare', 'BitOr', 'BitXor', 'BitAnd', 'LShift', 'RShift', 'Add', 'Sub',
          'Mult', 'Div', 'FloorDiv', 'Mod', 'USub', 'UAdd', 'Invert', 'Pow', 'Attribute', 'Call', 'Subscript', 'IfExp', 'Lambda',
-         'Tuple', 'List', 'IdxTuple', 'StarArg', 'StarElt', 'Keyword', 'Slice', 'Joined', 'Formatted']
+         'Tuple', 'List', 'IdxTuple', 'StarArg', 'StarElt', 'Keyword', 'Slice', 'Joined', 'Formatted', 'Other']
+# tree kinds of the marking model only (Coq kind KOther): dict / set displays, generator expressions
+OTHER_KINDS = ('Dict', 'Set', 'Gen')
 ITEM_KINDS = {'IdxTuple', 'StarArg', 'StarElt', 'Keyword', 'Slice', 'Formatted'}
 BINARY = ['BitOr', 'BitXor', 'BitAnd', 'LShift', 'RShift', 'Add', 'Sub', 'Mult', 'Div', 'FloorDiv', 'Mod', 'Pow']
 UNARY = ['Not', 'USub', 'UAdd', 'Invert']
@@ -27,7 +29,7 @@ CMPSYM = {'Eq': '==', 'NotEq': '!=', 'Lt': '<', 'LtE': '<=', 'Gt': '>', 'GtE': '
 PREC = {'Lambda': 0, 'IfExp': 0, 'Or': 1, 'And': 2, 'Not': 3, 'Compare': 4, 'BitOr': 5, 'BitXor': 6, 'BitAnd': 7, 'LShift': 8, 'RShift': 8,
         'Add': 9, 'Sub': 9, 'Mult': 10, 'Div': 10, 'FloorDiv': 10, 'Mod': 10, 'USub': 11, 'UAdd': 11, 'Invert': 11, 'NegConst': 11, 'Pow': 12,
         'Attribute': 13, 'Call': 13, 'Subscript': 13}
-for _k in KINDS: PREC.setdefault(_k, 14)
+for _k in KINDS + list(OTHER_KINDS): PREC.setdefault(_k, 14)
 
 
 def req(p, i):
@@ -126,6 +128,19 @@ def from_ast(n, ctx='expr'):
         return ('Slice', (n.lower is not None, n.upper is not None, n.step is not None), [from_ast(x) for x in parts])
     if T is ast.Tuple: return ('Tuple', None, [from_ast(x, 'elt') for x in n.elts])
     if T is ast.List: return ('List', None, [from_ast(x, 'elt') for x in n.elts])
+    if T is ast.Dict:
+        if any(k is None for k in n.keys): raise Unmodelled('dict unpacking')
+        return ('Dict', None, [from_ast(x) for x in n.keys] + [from_ast(x) for x in n.values])
+    if T is ast.Set: return ('Set', None, [from_ast(x, 'elt') for x in n.elts])
+    if T is ast.GeneratorExp:
+        clauses, kids = [], []
+        for g in n.generators:
+            if isinstance(g.target, ast.Name): names = [g.target.id]
+            elif isinstance(g.target, ast.Tuple) and all(isinstance(x, ast.Name) for x in g.target.elts): names = [x.id for x in g.target.elts]
+            else: raise Unmodelled('generator target')
+            clauses.append((names, len(g.ifs)))
+            kids.append(from_ast(g.iter)); kids += [from_ast(x) for x in g.ifs]
+        return ('Gen', clauses, kids + [from_ast(n.elt)])
     if T is ast.JoinedStr:
         lits, fields = [''], []
         for v in n.values:
@@ -167,6 +182,17 @@ def to_ast(t):
         return ast.Slice(lower=to_ast(next(it)) if d[0] else None, upper=to_ast(next(it)) if d[1] else None, step=to_ast(next(it)) if d[2] else None)
     if k in ('Tuple', 'IdxTuple'): return ast.Tuple(elts=[to_ast(c) for c in cs], ctx=L)
     if k == 'List': return ast.List(elts=[to_ast(c) for c in cs], ctx=L)
+    if k == 'Dict':
+        h = len(cs) // 2
+        return ast.Dict(keys=[to_ast(c) for c in cs[:h]], values=[to_ast(c) for c in cs[h:]])
+    if k == 'Set': return ast.Set(elts=[to_ast(c) for c in cs])
+    if k == 'Gen':
+        it = iter(cs); gens = []
+        for names, nifs in d:
+            S = ast.Store()
+            tgt = ast.Name(id=names[0], ctx=S) if len(names) == 1 else ast.Tuple(elts=[ast.Name(id=x, ctx=S) for x in names], ctx=S)
+            gens.append(ast.comprehension(target=tgt, iter=to_ast(next(it)), ifs=[to_ast(next(it)) for _ in range(nifs)], is_async=0))
+        return ast.GeneratorExp(elt=to_ast(next(it)), generators=gens)
     if k == 'Joined':
         vals = []
         for i, lit in enumerate(d):
@@ -346,6 +372,10 @@ def wf(t, parse_model=True):
     parenthesises such receivers since 2e38fbd, the token model does not know integer literals from other constants)."""
     k, d, cs = t
     n = len(cs)
+    if k in OTHER_KINDS:          # known to the marking model only
+        if parse_model: return False
+        shape = {'Dict': n % 2 == 0, 'Set': n >= 1, 'Gen': d is not None and n == sum(1 + x[1] for x in d) + 1}[k]
+        return shape and all(wf(c, parse_model) for c in cs)
     ar = {'Name': n == 0, 'Const': n == 0, 'NegConst': n == 0 and not parse_model, 'Or': n >= 2, 'And': n >= 2, 'IfExp': n == 3,
           'Call': n >= 1, 'Subscript': n == 2, 'Tuple': True, 'List': True, 'IdxTuple': True,
           'Compare': n >= 2 and d is not None and len(d) == n - 1, 'Lambda': n == 1, 'Attribute': n == 1, 'Keyword': n == 1,
@@ -541,6 +571,9 @@ def coq_label(k, d):
     if k == 'Keyword': return '(LKeyword %s)' % ('None' if d is None else '(Some %s)' % cstr(d))
     if k == 'Slice': return '(LSlice %s %s %s)' % tuple('true' if b else 'false' for b in d)
     if k == 'Joined': return '(LJoined [%s])' % ';'.join(cstr(x) for x in d)
+    if k == 'Dict': return 'LDict'
+    if k == 'Set': return 'LSet'
+    if k == 'Gen': return '(LGen [%s])' % ';'.join('([%s], %d%%nat)' % (';'.join(cstr(x) for x in names), nifs) for names, nifs in d)
     if k == 'Formatted':
         return '(LFormatted %s %s)' % ('None' if d[0] is None else '(Some %d)' % ord(d[0]), 'None' if d[1] is None else '(Some %s)' % cstr(d[1]))
     return '(LOp K%s)' % k
@@ -558,6 +591,7 @@ def tree_json(t):
 def tree_from_json(j):
     """JSON round trip turns tuples into lists; restore the tuple shape."""
     k, d, cs = j
+    if k == 'Gen': d = [(list(a), b) for a, b in d]
     if k == 'Slice': d = tuple(d)
     if k == 'Formatted': d = tuple(d)
     return (k, d, [tree_from_json(c) for c in cs])
@@ -631,11 +665,12 @@ class FragGen(object):
     SCOPE = {'a': 2, 'b': 0, 'c': -3, 'd': 'Jo', 'e': '', 'g': (1, 'x'), 'h': ()}
     BYTYPE = {'int': ['a', 'b', 'c'], 'str': ['d', 'e'], 'tup': ['g', 'h']}
 
-    def __init__(self, rng): self.rng = rng
+    def __init__(self, rng): self.rng = rng; self.confused = False
 
     def gen(self, ty, depth):
         r = self.rng
-        if r.random() < 0.04: ty = r.choice(['int', 'str', 'tup'])          # a deliberate type confusion now and then
+        if r.random() < 0.04:
+            ty = r.choice(['int', 'str', 'tup']); self.confused = True     # a deliberate type confusion now and then (str * int is Python, but not in the fragment)
         if depth <= 0 or r.random() < 0.2:
             if r.random() < 0.6: return ('Name', r.choice(self.BYTYPE[ty]), [])
             if ty == 'int': return ('Const', repr(r.choice([0, 1, 2, 7, 10])), [])
